@@ -56,6 +56,8 @@ P_KeyAgree(o) == Two(o) => \A c \in Cl(o) :
            \/ (ClosedSeen(o, c) /\ VerdictOf(o, c) = "WrongPasswordError")
            \/ (~ClosedSeen(o, c) /\ o.cl[c].selfClosed = "WrongPasswordError")
     /\ (o.match /\ o.goal) => (o.cl[c].verifier # "-")
+    \* with codes that differ nobody is ever told that all went well (whenever it closes, whatever it had heard by then)
+    /\ (~o.match /\ o.bothCoded /\ ClosedSeen(o, c)) => VerdictOf(o, c) # "happy"
 
 \* ---- C19 (code entry): only one of allocate/set/input ever takes effect; a malformed code is rejected
 \*      before anything is sent.  codeApi: sequence of [call, res, sentAfter] in call order
